@@ -70,5 +70,7 @@ Definition decimal_prefixes : list (string * Z) := [
   ("yotta", 24); ("zetta", 21); ("exa", 18); ("peta", 15); ("tera", 12); ("giga", 9); ("mega", 6); ("kilo", 3);
   ("hecto", 2); ("deca", 1); ("none", 0); ("deci", -1); ("centi", -2); ("milli", -3); ("micro", -6); ("nano", -9);
   ("pico", -12); ("femto", -15); ("atto", -18); ("zepto", -21); ("yocto", -24)]%Z.
+(* prefixes a newer table may add (SI 2022): accepted when present, not required *)
+Definition optional_decimal_prefixes : list (string * Z) := [("quetta", 30); ("ronna", 27); ("ronto", -27); ("quecto", -30)]%Z.
 Definition binary_prefixes : list (string * Z) := [
   ("yobi", 8); ("zebi", 7); ("exbi", 6); ("pebi", 5); ("tebi", 4); ("gibi", 3); ("mebi", 2); ("kibi", 1)]%Z.
